@@ -11,6 +11,7 @@ Monitors and oracles live in vlib/c08_mon.py:
   negative duration/power must raise and must not leave a driver command (refusal_no_leak).
 * sw_pulse_off / hold_limit: offline scan of the driver log: a software-timed pulse and a hold on a coil with
   max_hold_duration are followed by `disable` by their deadline (virtual time).
+* dout_limits              : pulses of driver-type digital outputs against the DriverConfig they registered.
 """
 
 PROPERTY = "C08"
@@ -35,8 +36,15 @@ ASSUMPTIONS = [
     "limits configured as 0/None (max_pulse_ms, max_pulse_power, max_hold_power, max_hold_duration) are 'unset': no "
     "statement is made for them; max_pulse_power/max_hold_power 0.0 are not generated",
     "holding is 'allowed by the configuration' iff allow_enable or max_hold_power or default_hold_power is set; without "
-    "max_hold_power the only upper bound demanded for hold power is 1.0 (MPF is stricter: default_hold_power)",
-    "NaN powers are neither 'above a limit' nor 'negative': no statement (MPF passes them through)",
+    "max_hold_power the only upper bound demanded for hold power is 1.0 (MPF is stricter: default_hold_power); a "
+    "hardware-timed hold (timed_enable) on a coil that does not allow holding is not 'left held on': no statement",
+    "NaN powers are neither 'above a limit' nor 'negative': no statement on the value itself; but an enable of a coil "
+    "whose configuration forbids holding must be refused whatever the hold power is (own signature for NaN)",
+    "digital outputs of type driver are not coils with an owner-configured envelope: their commands are judged (own "
+    "clause dout_limits / own signature) only against the DriverConfig they registered with the platform "
+    "(max_pulse_ms 255) and against 'negative duration'",
+    "an enable sent straight to the platform driver by SoftwareEosRepulseManager is judged like any other hold "
+    "(own signature), although a hardware rule would hold the coil just as long",
     "non-numeric / fractional-ms parameters: either refusal or an in-envelope command is accepted",
     "a later on-command (another software-timed pulse or an enable) issued before the deadline of a software-timed "
     "pulse supersedes that deadline (re-trigger); MPF's extra disable at the old deadline is accepted too",
@@ -49,12 +57,12 @@ ASSUMPTIONS = [
     "exact-instant coincidences: a disable in the same virtual instant as the deadline is in time (eps 1e-6 s)",
 ]
 HORIZONS = {"settle_after_last_deadline_s": 0.5, "max_settle_s": 1500}
-TIERS = {"quick": {"cases": 1400, "batch": 50, "case_timeout": 60},
+TIERS = {"quick": {"cases": 2000, "batch": 50, "case_timeout": 60},
          "thorough": {"cases": 30000, "batch": 250, "case_timeout": 120}}
 MIN_EVALS = {"quick": {"hw_limits": 20000, "refusal": 40000, "refusal_no_leak": 8000, "sw_pulse_off": 800,
-                       "hold_limit": 800, "rule_limits": 500, "rule_refusal": 2000},
-             "thorough": {"hw_limits": 400000, "refusal": 800000, "refusal_no_leak": 160000, "sw_pulse_off": 16000,
-                          "hold_limit": 16000, "rule_limits": 10000, "rule_refusal": 40000}}
+                       "hold_limit": 800, "rule_limits": 500, "rule_refusal": 2000, "dout_limits": 500},
+             "thorough": {"hw_limits": 300000, "refusal": 600000, "refusal_no_leak": 120000, "sw_pulse_off": 12000,
+                          "hold_limit": 12000, "rule_limits": 8000, "rule_refusal": 30000, "dout_limits": 8000}}
 SHRINK_KEYS = ["ops"]
 
 GEN_VERSION = 1
@@ -63,8 +71,8 @@ GEN_VERSION = 1
 # unrepaired that would cost minutes, so shrink candidates (= run_case calls whose case object is not the one gen_case
 # just returned, in a process that generates cases) are only really executed up to this many times per worker
 # process; beyond that they return "not reproduced" at once.  Verdicts never come from shrink candidates.
-SHRINK_RUNS_PER_PROCESS = 40
-_STATE = {"fresh": None, "generating": False, "shrink_runs": 0}
+SHRINK_RUNS_PER_PROCESS = {"common": 25, "other": 250}     # COMMON_SIGS share the small budget
+_STATE = {"fresh": None, "generating": False, "shrink_runs": {"common": 0, "other": 0}, "chasing": "other"}
 
 MS_LIMITS = [None, None, None, 10, 30, 100, 255, 256, 400, 1000, 3000]
 ADV = [0, 0, 0.001, 0.01, 0.05, 0.1, 0.1, 0.2, 0.25, 0.3, 0.5, 0.5, 0.7, 1.0, 1.0, 2.5, 5, 10]
@@ -240,9 +248,12 @@ def _gen_api_ops(rng, case, n_ops):
         elif k < 0.955:
             ops.append(["dev", rng.choice(["flipper", "flipper", "autofire", "kickback"]),
                         rng.choice(["enable", "enable", "disable", "sw_flip", "sw_release", "search"])])
-        elif k < 0.975:
+        elif k < 0.968:
             ops.append(["switch", rng.choice(["s_flip", "s_flip", "s_eos", "s_eos", "s_af", "s_kb"]),
                         rng.choice([0, 1])])
+        elif k < 0.975:
+            # button held, EOS closes long enough and opens again (software EOS repulse), button released later
+            ops.append(["eos_cycle", rng.choice([0.05, 0.15, 0.15, 0.3]), rng.choice([0.1, 0.5, 1.0, 3.0, 12.0])])
         elif k < 0.985:
             ops.append(["setvar", "c08_ms_%s" % name[1:], rng.choice([1, 10, 20, 100, 255, 256, 500, 3000, 0, -5, 2.5])])
         elif k < 0.992:
@@ -274,6 +285,7 @@ def _jsonable_num(v):
 
 def gen_case(rng, tier, index):
     case = _gen_case(rng, tier, index)
+    case["salt"] = rng.randrange(1 << 30)
     _STATE["fresh"] = case
     _STATE["generating"] = True
     return case
@@ -549,12 +561,15 @@ def run_case(case):
     from vlib import boot
     boot.guard_import()
 
+    fresh = True
     if _STATE["generating"]:
         if case is _STATE["fresh"]:
             _STATE["fresh"] = None
         else:
-            _STATE["shrink_runs"] += 1
-            if _STATE["shrink_runs"] > SHRINK_RUNS_PER_PROCESS:
+            fresh = False
+            kind = _STATE["chasing"]
+            _STATE["shrink_runs"][kind] += 1
+            if _STATE["shrink_runs"][kind] > SHRINK_RUNS_PER_PROCESS[kind]:
                 return {"violations": [], "clauses": {}, "shape": "shrink-budget", "nontrivial": False, "obs": {}}
 
     mon = Monitor()
@@ -621,8 +636,38 @@ def run_case(case):
     shape = case["kind"] + ":" + _limit_sig(case["coils"]) + ":" + hashlib.sha1(shape_src.encode()).hexdigest()[:12]
     nontrivial = mon.clauses["refusal"] > 0 and mon.clauses["hw_limits"] > 0
     trace = trace + [mon._ev_short(e) for e in mon.events[:25]] + mon.api_log[:25]
-    return {"violations": mon.viol, "clauses": dict(mon.clauses), "shape": shape, "nontrivial": nontrivial,
+    viol = _one_violation(mon.viol, case)
+    if fresh and viol:
+        _STATE["chasing"] = "common" if viol[0]["sig"] in COMMON_SIGS else "other"
+    return {"violations": viol, "clauses": dict(mon.clauses), "shape": shape, "nontrivial": nontrivial,
             "obs": obs, "trace": trace}
+
+
+# Signatures that the unchanged tree trips in almost every case (one root cause family each).  The harness shrinks a
+# case for its FIRST violation only but files a replay per signature, so a case reports exactly ONE violation:
+# anything outside this family first, then unknown-before-known, rotated by the case's salt so that every
+# signature present in the run gets cases (and replays that really reproduce it).
+COMMON_SIGS = ["C08:negative_pulse_ms", "C08:negative_pulse_power", "C08:negative_hold_power",
+               "C08:negative_timed_enable_ms", "C08:nan_hold_power_passes_hold_checks",
+               "C08:digital_output_pulse_unchecked"]
+
+
+def _one_violation(viol, case):
+    import os
+    if len(viol) <= 1:
+        return viol
+    known = set(x for x in os.environ.get("VERIF_KNOWN_SIGS", "").split(",") if x)
+    tiers = [[v for v in viol if v["sig"] not in known and v["sig"] not in COMMON_SIGS],
+             [v for v in viol if v["sig"] not in known and v["sig"] in COMMON_SIGS],
+             [v for v in viol if v["sig"] in known]]
+    pool = [t for t in tiers if t][0]
+    pool = sorted(pool, key=lambda v: v["sig"])
+    names = sorted(set(COMMON_SIGS) | set(v["sig"] for v in pool))
+    rot = case.get("salt", 0) % len(names)
+    order = names[rot:] + names[:rot]
+    pick = min(pool, key=lambda v: order.index(v["sig"]))
+    pick["detail"]["other_signatures_in_this_case"] = sorted(v["sig"] for v in viol if v is not pick)
+    return [pick]
 
 
 def _call(obs_extra, f, *a, **k):
@@ -734,6 +779,12 @@ def _do_op_inner(vm, case, op, mon, obs_extra):
         if op[1] in m.switches:
             m.switch_controller.process_switch(op[1], int(op[2]), logical=True)
             vm.advance(0)
+        return
+    if kind == "eos_cycle":
+        for nm, st, dt in (("s_flip", 1, 0.01), ("s_eos", 1, float(op[1])), ("s_eos", 0, float(op[2])),
+                           ("s_flip", 0, 0.01)):
+            m.switch_controller.process_switch(nm, st, logical=True)
+            vm.advance(dt)
         return
     if kind == "hit":
         if op[1] in m.switches:
